@@ -300,6 +300,14 @@ def r6_marker_names_follow(chk: Check):
                 "the resubmitted job finds the folder but not its success marker, and runs again", chk.loc(f.module, f.node))
 
 
+
+def r7_repaired_jobs_are_not_orphans(chk: Check):
+    """What the repair made reachable through a link must stay: `orphans` treats a folder as referenced when an index entry resolves to it
+    (= C16.R5 link resolution)"""
+    from .c16 import orphans_resolve_links
+
+    orphans_resolve_links(chk)
+
 RULES = [
     ("R1", "identifier swap: deprecate() saves the former identifier and stores its single parent's current identifier as a plain attribute; hash and job path read it; more than one base raises", r1_identifier_swap),
     ("R2", "the repair never deletes job data: unlink only under is_symlink() of the same path, no rmtree/shutil, rename only under cleanup with a free target, params.json replaced through a temporary file", r2_never_deletes),
@@ -307,4 +315,5 @@ RULES = [
     ("R4", "the recomputed identifier is the one a resubmission computes: init tasks, pre-tasks, task and meta are restored by the loader (= C12.R1, C12.R3)", r4_recomputed_identifier),
     ("R5", "with --cleanup, all former links are removed in a completed pass before any new location is tested", r5_cleanup_order),
     ("R6", "marker files of a repaired job (finding kept in known_findings.json): named after the task, not renamed by the repair", r6_marker_names_follow),
+    ("R7", "jobs made reachable by the repair are not orphans: index entries and stored folders are compared fully resolved (= C16.R5)", r7_repaired_jobs_are_not_orphans),
 ]
